@@ -161,6 +161,9 @@ def finish(ctx):
         json.dump(ev, fh, indent=1, default=str)
     print(f"[{ctx.prop}] tier={ctx.tier} obligations={n_ob} discharged={n_ok} known={len(known_hit)} "
           f"violations={len(viol)} functions_analysed={len(ctx.analysed_fns)} wall={wall:.1f}s")
+    vp0 = os.path.join(EVDIR, f"{ctx.prop}.violations.json")
+    if not viol and os.path.exists(vp0):
+        os.remove(vp0)
     if viol:
         vp = os.path.join(EVDIR, f"{ctx.prop}.violations.json")
         with open(vp, "w") as fh:
